@@ -63,6 +63,7 @@ package testdirectory
 //@   ensures  forall(i, 0, len(entries), dnMatch(filter, entries[i].DN) ==> len(result1) > 0)
 //@   ensures  len(result1) >= 1 ==> 0 <= result1[0] && result1[0] < len(entries) && dnMatch(filter, entries[result1[0]].DN) && result2[0] == entries[result1[0]]
 //@   ensures  len(result1) == 1 ==> forall(i, 0, len(entries), dnMatch(filter, entries[i].DN) ==> i == result1[0])
+//@   ensures  len(result1) >= 1 ==> exists(i, 0, len(entries), i == result1[0] && result2[0] == entries[i])
 //@   ensures  len(result1) > 1 ==> exists(i, 0, len(entries), exists(j, i + 1, len(entries), dnMatch(filter, entries[i].DN) && dnMatch(filter, entries[j].DN)))
 //@   panics false
 //@   modifies nothing
@@ -119,3 +120,48 @@ package testdirectory
 //@   panics false
 //@   modifies Directory.users, Directory.groups, cell(*gldap.Entry), all(ber.Packet), cell(*ber.Packet), G_bufdata, G_pktnew, G_held, G_acq, G_nframes, G_npend, G_werr, G_pendstr, G_flushed, G_lastok, G_lasttag, G_lastcode, G_lastid
 //@   tags C20
+
+// handleModify: the statement's "add-value, delete-attribute and replace
+// modifications of user entries are reflected in later searches" is stated for
+// a request carrying one change (the general case is the same step iterated;
+// the loop invariant pins the state before the first and after the first change).
+//@ pure modMsg(r *gldap.Request) *gldap.ModifyMessage = r.message.(*gldap.ModifyMessage)
+//@ pure isMod(r *gldap.Request) bool = typeIs(r.message, *gldap.ModifyMessage)
+//@ pure hasAttr(e *gldap.Entry, T string) bool = exists(j, 0, len(e.Attributes), e.Attributes[j].Name == T)
+//@ pure attrsSame(e *gldap.Entry) bool = len(e.Attributes) == old(len(e.Attributes)) && forall(j, 0, len(e.Attributes), e.Attributes[j] == old(e.Attributes[j]) && e.Attributes[j].Name == old(e.Attributes[j].Name) && e.Attributes[j].Values == old(e.Attributes[j].Values))
+//@ pure chgT(c *gldap.ModifyMessage) string = c.Changes[0].Modification.Type
+//@ pure chgV(c *gldap.ModifyMessage) []string = c.Changes[0].Modification.Vals
+//@ pure chgOp(c *gldap.ModifyMessage) int64 = c.Changes[0].Operation
+//@ pure stepReplace(e *gldap.Entry, c *gldap.ModifyMessage) bool = chgOp(c) == gldap.ReplaceAttribute && old(hasAttr(e, chgT(c))) ==> exists(j, 0, len(e.Attributes), e.Attributes[j].Name == chgT(c) && e.Attributes[j].Values == chgV(c))
+//@ pure stepAddNew(e *gldap.Entry, c *gldap.ModifyMessage) bool = chgOp(c) == gldap.AddAttribute && !old(hasAttr(e, chgT(c))) ==> len(e.Attributes) == old(len(e.Attributes)) + 1 && e.Attributes[old(len(e.Attributes))].Name == chgT(c) && e.Attributes[old(len(e.Attributes))].Values == chgV(c)
+//@ pure stepAddOld(e *gldap.Entry, c *gldap.ModifyMessage) bool = chgOp(c) == gldap.AddAttribute && old(hasAttr(e, chgT(c))) ==> len(e.Attributes) == old(len(e.Attributes)) && exists(j, 0, len(e.Attributes), e.Attributes[j].Name == chgT(c) && len(e.Attributes[j].Values) == old(len(e.Attributes[j].Values)) + len(chgV(c)))
+//@ pure stepDelete(e *gldap.Entry, c *gldap.ModifyMessage) bool = chgOp(c) == gldap.DeleteAttribute && old(hasAttr(e, chgT(c))) ==> len(e.Attributes) == old(len(e.Attributes)) - 1
+//@ pure attrsNonNil(e *gldap.Entry) bool = forall(j, 0, len(e.Attributes), e.Attributes[j] != nil)
+//@ func (*testdirectory.Directory).handleModify$1
+//@   requires hOK(w, r) && dirOK(d) && !held(&d.mu)
+//@   ensures  isMod(r) && len(modMsg(r).Changes) == 1 ==> forall(p, 0, len(d.users), old(uniqU(d, modMsg(r).DN, p)) ==> stepReplace(d.users[p], modMsg(r)))
+//@   ensures  isMod(r) && len(modMsg(r).Changes) == 1 ==> forall(p, 0, len(d.users), old(uniqU(d, modMsg(r).DN, p)) ==> stepAddNew(d.users[p], modMsg(r)))
+//@   ensures  isMod(r) && len(modMsg(r).Changes) == 1 ==> forall(p, 0, len(d.users), old(uniqU(d, modMsg(r).DN, p)) ==> stepAddOld(d.users[p], modMsg(r)))
+//@   ensures  isMod(r) && len(modMsg(r).Changes) == 1 ==> forall(p, 0, len(d.users), old(uniqU(d, modMsg(r).DN, p)) ==> stepDelete(d.users[p], modMsg(r)))
+//@   ensures  isMod(r) ==> forall(p, 0, len(d.users), old(uniqU(d, modMsg(r).DN, p)) ==> (G_lastok[w.writerMu] ==> G_lastcode[w.writerMu] == gldap.ResultSuccess))
+//@   ensures  isMod(r) && old(noU(d, modMsg(r).DN)) && old(forall(i, 0, len(d.groups), !dnMatch(modMsg(r).DN, d.groups[i].DN))) ==> (G_lastok[w.writerMu] ==> G_lastcode[w.writerMu] == gldap.ResultNoSuchObject)
+//@   ensures  isMod(r) && old(noU(d, modMsg(r).DN)) && old(forall(i, 0, len(d.groups), !dnMatch(modMsg(r).DN, d.groups[i].DN))) ==> forall(i, 0, len(d.users), attrsSame(d.users[i]))
+//@   ensures  usersSame(d) && groupsSame(d)
+//@   ensures  G_lastok[w.writerMu] ==> G_lasttag[w.writerMu] == gldap.ApplicationModifyResponse && G_lastid[w.writerMu] == msgID(r.message)
+//@   ensures  !held(&d.mu) && !held(w.writerMu)
+//@   panics false
+//@   modifies gldap.Entry.Attributes, cell(*gldap.EntryAttribute), gldap.EntryAttribute.Values, gldap.EntryAttribute.ByteValues, cell(string), cell([]byte), all(ber.Packet), cell(*ber.Packet), G_bufdata, G_pktnew, G_held, G_acq, G_nframes, G_npend, G_werr, G_pendstr, G_flushed, G_lastok, G_lasttag, G_lastcode, G_lastid
+//@   tags C20
+//@ loop 1
+//@   invariant rangeindex__1 == -1 ==> attrsSame(e)
+//@   invariant e != nil && attrsNonNil(e)
+//@   invariant held(&d.mu)
+//@   invariant res != nil && res.GeneralResponse != nil && res.GeneralResponse.baseResponse != nil
+//@   invariant rangeindex__1 == 0 ==> stepAddNew(e, m)
+//@   invariant rangeindex__1 == 0 ==> stepAddOld(e, m)
+//@   invariant rangeindex__1 == 0 ==> stepDelete(e, m)
+//@   invariant rangeindex__1 == 0 ==> stepReplace(e, m)
+//@ loop 2
+//@   invariant foundAttr == nil ==> forall(j, 0, rangeindex__2 + 1, e.Attributes[j].Name != chg.Modification.Type)
+//@   invariant foundAttr != nil ==> 0 <= foundAt && foundAt <= rangeindex__2 && foundAttr == e.Attributes[foundAt] && foundAttr.Name == chg.Modification.Type
+//@   modifies nothing
